@@ -276,6 +276,10 @@ class Gen:
         for i in range(r.randrange(1, 3)):
             cols = " ".join(self.ident() for _ in range(r.randrange(0, 3)))
             mat = r.choice(["", "", " mat", " notmat"])
+            if r.random() < 0.2:
+                # CommonTableExpression::from_select: name and columns derived from the SELECT
+                cs.append("(ctefs %s%s)" % (self.select(depth - 1), mat))
+                continue
             cs.append("(cte %s (cols%s) %s%s)" % (self.ident(), " " + cols if cols else "", self.query(depth - 1, False), mat))
         if "(recursive)" in cs and r.random() < 0.4:
             cs.append("(search %s %s %s)" % (r.choice(["breadth", "depth"]), self.expr(0), self.ident()))
